@@ -108,7 +108,7 @@ def random_cases(draw):
         g = draw(games.any_games(max_states=8))
         route = "component"
     else:
-        g = draw(games.stopping_games(min_inner=2, max_inner=9, max_sinks=3, dup_names=True))
+        g = draw(games.stopping_games(min_inner=2, max_inner=9, max_sinks=3, dup_names=True, zero_edges=True))
         route = draw(st.sampled_from(("component", "pipeline", "assigned")))
     return dict(game=g, route=route)
 
@@ -190,7 +190,10 @@ def model_lists(game, probs, strategies):
         else:
             live = [(p, t) for p, t in lst if probs[t] != 0]
             tot = sum(p for p, _ in live)
-            out.append([(p / tot, t) for p, t in live] if len(live) < len(lst) else live)
+            if len(live) < len(lst) and tot == 0:
+                out.append(None)      # only zero-probability transitions survive: representation not prescribed
+            else:
+                out.append([(p / tot, t) for p, t in live] if len(live) < len(lst) else live)
     return out
 
 
@@ -256,7 +259,7 @@ def check_case(case):
     stack = [0]
     while stack:
         s = stack.pop()
-        for _, t in want[s]:
+        for _, t in (want[s] or []):
             if t not in reach:
                 reach.add(t)
                 stack.append(t)
@@ -277,6 +280,8 @@ def check_case(case):
                 v.fail("player2-list-changed", f"state {s}: {game['transition_list'][s]} became {got}")
             continue
         exp = want[s]
+        if exp is None:
+            continue
         if [t for _, t in got] != [t for _, t in exp]:
             v.fail("live-branch-lost-or-moved", f"state {s} ({pl}): expected targets {[t for _, t in exp]} "
                                                 f"got {[t for _, t in got]} (original {game['transition_list'][s]})",
